@@ -212,6 +212,118 @@ def rule_pad_to_fill(ctx: Ctx) -> RuleResult:
     return rr
 
 
+def rule_pad_segment_nonzero(ctx: Ctx) -> RuleResult:
+    """A layout line may start with a pad segment (n, None): n blank columns (or a trim for n < 0).  apply_text_layout
+    turns it into a run of length n in the attribute / character-set run lists, and a run of length 0 ends the row
+    there (rle_product stops at it: the row comes out 0 columns wide, C01.23).  Every pad segment the layout module
+    builds has an amount that the tests on the way show to be non-zero (`if amount:`, `x if x else ...`, `sc == width`
+    excluded before `width - sc`).  Seed C01-r8b folded the `if amount:` of shift_line() away: a view shift that exactly
+    cancels the alignment shift gave (0, None) and an empty cursor row in a right-aligned Edit."""
+    from ..rules.exc import ExcEngine
+    from ..rules.runpos import _atoms
+
+    p = ctx.p
+    rr = RuleResult("RUNPOS", "C01.30", "every pad segment (amount, None) built by the layout module has an amount shown non-zero by the tests on the way to it", floor=3)
+    for fi in p.functions.values():
+        if fi.module.name != "urwid.text_layout" or fi.is_lambda:
+            continue
+        tuples = [t for t in fi.own_nodes() if isinstance(t, ast.Tuple) and isinstance(t.ctx, ast.Load) and len(t.elts) == 2 and isinstance(t.elts[1], ast.Constant) and t.elts[1].value is None and not isinstance(t.elts[0], ast.Constant)]
+        if not tuples:
+            continue
+        cfg = cfg_of(fi)
+        parents = {id(ch): pa for pa in ast.walk(fi.node) for ch in ast.iter_child_nodes(pa)}
+        for t in tuples:
+            E = t.elts[0]
+            L = linear(E)
+            ok = False
+            x = t
+            while id(x) in parents and not isinstance(x, ast.stmt):
+                pa = parents[id(x)]
+                if isinstance(pa, ast.IfExp) and pa.body is x and L is not None and linear(pa.test) == L:
+                    ok = True
+                x = pa
+            cn = next((n for n in cfg.nodes for e in _node_exprs(n) for y in ast.walk(e) if y is t), None)
+            facts = []
+            if cn is not None and L is not None:
+                for tn in cfg.nodes:
+                    if tn.kind != "test":
+                        continue
+                    for lab, truth in (("T", True), ("F", False)):
+                        if cn not in ExcEngine._reach_without_edge(cfg, tn, lab):
+                            facts += _atoms(tn.ast, truth)
+                negL = {k: -v for k, v in L.items()}
+                if any((e == L or e == negL) and o in ("!=", ">", "<") for e, o in facts):
+                    ok = True
+            rr.inst(f"{short(fi)}: {norm(t, 40)}", True, {"segment": f"{short(fi)}: {norm(t, 50)}", "amount": lin_str(L) if L is not None else ast.unparse(E), "shown_non_zero": ok})
+            if not ok:
+                rr.add(finding("RUNPOS", fi, t, f"the pad segment `{norm(t, 50)}` is built although nothing on the way shows `{ast.unparse(E)}` to be non-zero: (0, None) becomes a run of length 0 in the row's attribute runs, TextCanvas.content() ends the row there - a row 0 columns wide in a canvas that is maxcol wide", construct=f"{fi.name}: pad segment amount {ast.unparse(E)} not shown non-zero"))
+    return rr
+
+
+def rule_adjust_both_ways(ctx: Ctx) -> RuleResult:
+    """A widget that brings its canvas to the requested size with pad_trim_*(.., target - actual) relies on the sign of
+    the amount: positive pads, negative trims.  A guard in front of the call may only skip the case target == actual
+    (`if target - actual:`, `if target != actual:`); a one-sided guard (`if actual < target:`) keeps the padding and
+    silently drops the trimming - the canvas comes out larger than the size asked for whenever the content overhangs
+    (seed C01-r8a: GraphVScale with a wrapped label at the bottom)."""
+    from ..rules.exc import ExcEngine
+
+    p = ctx.p
+    rr = RuleResult("GUARD", "C01.29", "a pad_trim call whose amount is target - actual is not placed under a one-sided comparison of the same two quantities", floor=3)
+    for mname in modules(p):
+        m = p.modules.get(mname)
+        if m is None:
+            continue
+        for fi in m.functions:
+            calls = [c for c in fi.own_nodes() if isinstance(c, ast.Call) and isinstance(c.func, ast.Attribute) and c.func.attr in PAD_DIM]
+            if not calls or (fi.cls is not None and fi.cls.name in ("Canvas", "CompositeCanvas")):
+                continue
+            cfg = cfg_of(fi)
+            for c in calls:
+                cn = next((n for n in cfg.nodes for e in _node_exprs(n) for x in walk_no_nested(e) if x is c), None)
+                if cn is None:
+                    continue
+                for a in c.args[:2]:
+                    L = linear(a)
+                    if L is None or "" in L or sorted(L.values()) != [-1, 1]:
+                        continue
+                    one_sided = None
+                    for t in cfg.nodes:
+                        if t.kind != "test" or not isinstance(t.ast, ast.Compare) or len(t.ast.ops) != 1 or not isinstance(t.ast.ops[0], (ast.Lt, ast.Gt, ast.LtE, ast.GtE)):
+                            continue
+                        if cn in ExcEngine._reach_without_edge(cfg, t, "T") and cn in ExcEngine._reach_without_edge(cfg, t, "F"):
+                            continue
+                        D = linear(ast.BinOp(left=t.ast.left, op=ast.Sub(), right=t.ast.comparators[0]))
+                        if D is not None and (D == L or D == {k: -v for k, v in L.items()}):
+                            one_sided = t
+                    if one_sided is not None:
+                        neg = {k: -v for k, v in L.items()}
+                        pos_name = next(k for k, v in L.items() if v == 1)
+                        neg_name = next(k for k, v in L.items() if v == -1)
+                        # the other sign cannot occur (target = max(target, actual)) or is dealt with by a test of its own
+                        for n2 in fi.own_nodes():
+                            if isinstance(n2, ast.Assign) and any(isinstance(t2, ast.Name) and t2.id == pos_name for t2 in n2.targets) and isinstance(n2.value, ast.Call) and callee_name(n2.value) == "max" and any(isinstance(x, ast.Name) and x.id == neg_name for x in n2.value.args):
+                                one_sided = None
+                            if isinstance(n2, ast.Compare) and len(n2.ops) == 1 and isinstance(n2.ops[0], (ast.Lt, ast.Gt)) and one_sided is not None and n2 is not one_sided.ast:
+                                D2 = linear(ast.BinOp(left=n2.left, op=ast.Sub(), right=n2.comparators[0]))
+                                s1 = 1 if isinstance(one_sided.ast.ops[0], (ast.Gt, ast.GtE)) else -1
+                                D1 = linear(ast.BinOp(left=one_sided.ast.left, op=ast.Sub(), right=one_sided.ast.comparators[0]))
+                                s2 = 1 if isinstance(n2.ops[0], ast.Gt) else -1
+                                # same quantities, opposite direction
+                                if D2 is not None and D1 is not None and ((D2 == D1 and s2 == -s1) or (D2 == {k: -v for k, v in D1.items()} and s2 == s1)):
+                                    one_sided = None
+                    rr.inst(f"{short(fi)}: {norm(c, 50)}", True, {"call": f"{short(fi)}: {norm(c, 60)}", "amount": lin_str(L), "one_sided_guard": norm(one_sided.ast, 40) if one_sided is not None else None} if len(rr.samples) < 8 else None)
+                    if one_sided is not None:
+                        rr.add(finding("GUARD", fi, c, f"`{norm(c, 60)}` adjusts by `{lin_str(L)}` but runs only under `{norm(one_sided.ast, 40)}`: the other sign of the difference is never applied - where the content overhangs the requested size the canvas is returned too large (WidgetError for a box widget)", construct=f"{fi.name}: size adjustment under a one-sided guard"))
+    return rr
+
+
+def _node_exprs(n):
+    from ..rules.util import node_exprs
+
+    return node_exprs(n)
+
+
 def _apportion(ctx: Ctx):
     from . import c19
 
@@ -645,6 +757,8 @@ def run(ctx: Ctx):
         rule_overlay_position(ctx),
         rule_inverse_percent(ctx),
         rule_given_total(ctx),
+        rule_adjust_both_ways(ctx),
+        rule_pad_segment_nonzero(ctx),
         rule_complementary_quantities(ctx),
         rule_repeat_bound(ctx),
         _two_sided(ctx),
